@@ -124,6 +124,12 @@ def scheduler_identity(ctx, rng, cases):
             bad = records[consumed]
             ctx.violation(f"scheduler: evaluation record {bad} violates 'shear tasks read isothermal dependencies only and store adi = iso'",
                           {"record": bad, "index": consumed}, {"clause": "shear_trace"})
+    if ctx.tier == "thorough" and records:
+        from cv.trace import binding_control
+        k = next((i for i, r in enumerate(records) if r["shear"] and r["reads"]), None)
+        if k is not None:
+            binding_control(ctx, "Trace_ShearAdi", "Trace_ShearAdi.cfg", records, k,
+                            lambda r: dict(r, reads=[[r["reads"][0][0], "adi"]] + r["reads"][1:]), "shear_adi_neg", "read_store")
     ctx.cov["scheduler_eval_records"] = len(records)
 
 
